@@ -6,7 +6,7 @@ cd /verif; mkdir -p .runall /tmp/r$N; : > "$OUT"
 grep "^finding:" known_findings.txt | sed 's/.*key=\([^ ]*\) .*/[\1]/' > .runall/known_keys.txt
 worker() {
   k=$1; shift
-  R=/tmp/seedrepo_$k; S=/tmp/seedscratch_$k
+  R=/tmp/rtrepo_$k; S=/tmp/rtscratch_$k
   git -C /repo worktree remove --force $R >/dev/null 2>&1; rm -rf $R $S
   git -C /repo worktree add -q --detach $R main || exit 2
   for prop in "$@"; do
@@ -24,7 +24,7 @@ worker() {
   done
   git -C /repo worktree remove --force $R >/dev/null 2>&1; rm -rf $S
 }
-IDS=$(python3 -c "import json;print(' '.join(c['property_id'] for c in json.load(open('MANIFEST.json'))['checks']))")
+IDS=$(for i in $(python3 -c "import json;print(' '.join(c['property_id'] for c in json.load(open('MANIFEST.json'))['checks']))"); do [ -d /tmp/wt${N}_$i ] && echo $i; done)
 i=0
 for k in $(seq 1 $W); do eval "L$k="; done
 for id in $IDS; do k=$(( i % W + 1 )); eval "L$k=\"\$L$k $id\""; i=$((i+1)); done
